@@ -190,6 +190,112 @@ CHECKS["C18"] = (
     "the repaired boundary map of remove_duplicate_nodes, mirror determinant in 3-D; orientation flags of "
     "tags are outside the statement (F13).  Known finding FC18d (second-order surgery) is listed in known_findings.json (partial).")
 
+CHECKS["C07"] = (
+    "Lean 4 proof over an executable model of get_dofs / DofsView / normalize_* / wrapper dofnames + exact "
+    "correspondence + zero-out search",
+    "Theorems for arbitrary DOF counts, arbitrary connectivity tables and arbitrary (unsorted, repeated) index "
+    "lists: membership characterisation through dofNumber of the facet, cell and vertex queries (vertex DOFs of the "
+    "vertices of the selected facets, edge DOFs of their edges, facet DOFs of the facets, nothing else; every entry of "
+    "the selected columns of element_dofs; vertex DOFs), result strictly ascending and below N, the result depends on "
+    "the selected SET only, soundness of the selector normalisation (index array / int / truth table of a predicate / "
+    "tag / nested collections / None = boundary facets / True) against a denotational specification, hence equal "
+    "results for equivalent selectors, complement = ascending set complement, union, keep/drop/all/skip = filter by "
+    "the name of the DOF number (dofName, shown to be the name _dofnames_to_rows reads for the row), by-name views, "
+    "name lists of ElementComposite / ElementVector / ElementDG commute with the row lookup (repaired order; the pinned "
+    "order is refuted by C07_name_filter_old_counterexample), per-cell closure iff and trace control relative to the "
+    "locality of the element.  The model is compared with basis.get_dofs(...) internals, Mesh.normalize_*, "
+    "_expand_facets, complement_dofs, Element.dofnames on random meshes of all six first-order classes x all exported "
+    "elements and wrappers; the statement (selector agreement, exactness against an oracle built from element_dofs, t "
+    "and the reference cell only, zero-out test of the trace through FacetBasis on both sides of interior facets, "
+    "boundary default, complement, name filters against a structural name oracle) is evaluated on the implementation.",
+    "Trace control is proved relative to the hypothesis that a local basis function has a non-zero trace only on "
+    "facets whose closure contains its entity (C03); on the implementation the zero-out test covers the conforming "
+    "H1 / H(div) / H(curl) elements (not CR, Morley, P0, DG, skeleton, HHJ; not wedges, where FacetBasis is not "
+    "implemented).  Callables enter the model through their truth table.  Second-order meshes are outside the "
+    "statement's generator (nodes_satisfying would return mid-side nodes).")
+
+CHECKS["C12"] = (
+    "Lean 4 proof over an executable model of Mesh.refined(k)/_uniform + exact correspondence + exact geometric search",
+    "Theorems for every mesh (any point list, cell list, tags), every cell type and every number of passes: 2^(d k) "
+    "cells, old points are a prefix, every new vertex sits at the mean of the parent's entity it is named after "
+    "(numbering sz+t2f, sz+t2e, ... through the C11 slot specification), the tetrahedral diagonal masks are a "
+    "partition, exact template geometry for ARBITRARY rational parent coordinates (signed child measures = +-1/2^d "
+    "of the parent for line/tri/tet incl. all three tet splittings, |measures| add up, quad/hex children are the "
+    "parent's bi/trilinear map restricted to the dyadic sub-boxes, children of a convex quad are convex with the "
+    "same orientation, children lie in every half-space containing the parent's vertices), conformity (two cells "
+    "sharing a facet produce the same refined facets on it, decided on the templates for all slot pairs and local "
+    "correspondences and transported to every mesh by the C11 sharing property; interior child facets pair up), "
+    "subdomain index maps name exactly the children of the named cells for all five classes (generic k+i*nt code, "
+    "2k/2k+1 for segments, diagonal-grouped blocks for tetrahedra) and after k passes (ancestors), the new_facets "
+    "maps of triangles (sort_t False and True via the lexicographic facet order) and quadrilaterals name the two "
+    "halves of every old facet (last-write-wins scatter), dropped tags are None. The model is compared exactly with "
+    "m.refined(k) (t, p, subdomain and boundary arrays; all nine refinable classes) and its parent map with the "
+    "geometric parents; an independent exact integer oracle checks every clause of the statement on the "
+    "implementation (all ten classes, tags incl. interior/oriented facets, k=1..3, histories with restrict/"
+    "remove_elements).",
+    "Partial: the step from (inside, measures add, facets pair) to 'the children tile the parent' is the standard "
+    "degree argument and not formalised; hexahedral conformity assumes the two neighbours traverse the common face "
+    "in the same cyclic order (dihedral correspondence); that MeshLine1 keeps facet numbers (boundaries kept as they "
+    "are) and the orientation flags of oriented boundaries are covered by the search only (tri/quad drop the "
+    "orientation silently, see F13).")
+
+CHECKS["C20"] = (
+    "Lean 4 proof (Mathlib: Matrix.det/inverse/crossProduct/trace, HasDerivAt) over helper formulas translated from the "
+    "live source on every run and over an executable model of NonlinearForm._assemble + exact correspondence + "
+    "finite-difference / hand-linearisation search",
+    "PART 1: the bodies of det, inv, cross, curl, div, sym_grad, trace, transpose, eye, dot, ddot, dddot, prod (2 and 3 "
+    "arguments), mul (matrix-vector and matrix-matrix) of skfem.helpers AND skfem.autodiff.helpers are re-read from the "
+    "live source on every run by a restricted-AST symbolic executor (61 terms, sizes 2 and 3) and proved equal, over "
+    "an arbitrary commutative ring / field, to the Mathlib definition (Matrix.det, left+right inverse = A^-1 under det "
+    "!= 0, crossProduct, trace, transpose, mulVec, matrix product, dotProduct, explicit double/triple contractions, "
+    "vecMulVec, diagonal, (G+G^T)/2, curl = sum_j e_j x d_j), and NumPy variant = JAX variant; counterexample theorem "
+    "for the pinned JAX 3x3 determinant (F3). The generated terms are evaluated by the Lean driver on rational inputs "
+    "and compared EXACTLY with the live Python functions (translator under test). PART 2: for every differentiable "
+    "integrand, every mesh / DOF table / basis / quadrature / linearisation point, over R or C: the assembled vector "
+    "is minus the residual and, under the explicit JAX contract (linearize returns the true directional derivative, "
+    "linear in the direction), the assembled matrix is the derivative of the residual w.r.t. the coefficient vector "
+    "(HasDerivAt along every direction and entrywise), equals the C01 assembly of the linearised form, reduces to the "
+    "C01 matrix and to -(Ax+b) for integrands affine in the unknown; hessian mode: vector = -gradient of the energy. "
+    "The contract is PROVED for the polynomial integrand grammar (formal Leibniz derivative), whose model is run on the "
+    "implementation's own basis arrays against NonlinearForm._assemble. Search: both helper variants vs numpy.linalg "
+    "and pointwise loops on random tensors of all trailing shapes; NonlinearForm on generated line/tri/quad/tet(/hex) "
+    "meshes x scalar/vector/composite/DG/H(div) elements x 13 integrand templates + a random smooth grammar x random "
+    "points: vector = -LinearForm, matrix = symbolically hand-linearised BilinearForm (1e-9) = central differences of "
+    "the assembled vector (random + unit directions, all entries), affine integrands = ordinary assembly (1e-12), "
+    "shape/dtype, hessian mode, FacetBasis, x=None, elemental().",
+    "Partial: exact-arithmetic theorems (floating point not modelled); NumPy/JAX broadcasting over trailing axes and "
+    "einsum ellipsis semantics are trusted (exercised on shapes (d,d), (d,d,n), (d,d,nt,nq), strided/Fortran views); "
+    "that JAX meets the derivative contract for non-polynomial smooth integrands (exp, sin, cos, sqrt, division) is "
+    "validated by search only; skfem.autodiff.helpers offers no inv/cross/curl/identity/inner (NumPy variant only).")
+
+CHECKS["C10"] = (
+        "Lean 4 proof over closed forms lifted from the live source by a restricted AST translator + "
+        "correspondence (1e-12 vs exact rationals) + identity search against an independent nodal-polynomial oracle",
+        "Theorems over any field (ordered field for signs), all cells / points / matrices, d = 1..3: transcribed "
+        "det = Matrix.det and inverse two-sided for both classes; F∘invF = invF∘F = id; DF = A; P1 isoparametric "
+        "map = affine map (and same det/inverse formulas); Jacobian = derivative with explicit Taylor remainder for "
+        "Quad1, Hex1, Wedge1, LineP2, TriP2, TetP2; facet map G(s) = F_K(reference facet point) for tri, tet "
+        "(any vertex order, either neighbour), quad, hex (all 6x8 local facet / cyclic order cases), curved TriP2 "
+        "edges; invF_K∘G_f = reference facet point (FacetBasis); surface-factor radicand = Gram determinant "
+        "(Lagrange); normals: transport (DF^-T N)·(DF u) = N·u, orthogonal to the facet and outward for EVERY "
+        "reference cell (table fact by decide on refdom data) independently of the sign of det; unit length "
+        "(partial: sqrt trusted); Nanson detB^2 = det^2 |raw normal|^2 and the divergence identity "
+        "sum_f |f| x_f·n_f = d|K| on simplices with the delivered quantities; output sizing X.shape[-1] fits both "
+        "point layouts and the cache key (shape, dtype, bytes) is injective, with counterexample theorems for the "
+        "pinned code (F16, F11). The formulas are re-extracted from mapping_affine.py, mapping_isoparametric.py, "
+        "generic_utils.py, the lbasis of nine mapping elements and refdom.py on every run; the model is compared "
+        "with MappingAffine / MappingIsoparametric on rational meshes; every clause of the statement is evaluated "
+        "on the implementation for all ten mesh classes (incl. curved second order and library constructors), "
+        "default and explicit mappings, shared and per-cell point arrays, None / subset / permuted-with-repetition / "
+        "empty index sets, both adjacent cells, FacetBasis (boundary, interior side 0/1, oriented), call histories "
+        "with colliding cache bytes.",
+        "Partial: square roots (unit length, surface factor) enter as witnesses; Newton convergence of the "
+        "isoparametric inverse and NumPy broadcasting are covered by correspondence/search only; Quad2/Hex2 shape "
+        "functions (outside the translator's subset) and the mesh-level pairing of interior facets in the "
+        "divergence identity are search only; wedges have no facet map in the library (cell maps and normals "
+        "only).")
+
+
 NOT_YET = {}
 
 
